@@ -56,6 +56,7 @@ type monitor struct {
 	observed map[string]int    // Pod key#uid -> process incarnation that saw it Succeeded
 	// persistedSuccess[pod key]: some applied Job write recorded this task as Succeeded
 	persistedSuccess map[string]bool
+	createdFor       map[string]string // Pod UID -> UID of the Job the job controller created it for
 	foreign  map[string]string // planted Pod key -> name of the Job whose task name it occupies
 
 	seenRestarts int
@@ -132,7 +133,7 @@ type podCreate struct {
 
 func newMonitor(r *e2run) *monitor {
 	return &monitor{r: r, labels: map[string]bool{}, userEdited: map[string]bool{}, userEditSeq: map[string]int{}, finishedSeq: map[string]int{}, podCreates: map[string][]podCreate{},
-		everTasks: map[string]map[string]bool{}, rejectedJobs: map[string]bool{}, jobCtlWrote: map[string]bool{}, startedAt: map[string]time.Time{}, observed: map[string]int{}, persistedSuccess: map[string]bool{}, foreign: map[string]string{}}
+		everTasks: map[string]map[string]bool{}, rejectedJobs: map[string]bool{}, jobCtlWrote: map[string]bool{}, startedAt: map[string]time.Time{}, observed: map[string]int{}, persistedSuccess: map[string]bool{}, createdFor: map[string]string{}, foreign: map[string]string{}}
 }
 
 func (m *monitor) on(p string) bool { return m.props == nil || m.props[p] }
@@ -151,9 +152,22 @@ func (m *monitor) fail(prop, sig, f string, a ...interface{}) {
 }
 
 func hasAdmErr(j *execution.Job) bool { _, ok := j.Annotations[annAdmissionError]; return ok }
+// terminalPhase is the harness's own reading of the API documentation (the
+// phases "completed / did not complete / fully killed / could not start / finished
+// for unknown reasons"), deliberately not furiko's JobPhase.IsTerminal: a Job that
+// is Terminating (completion decided, tasks still alive) is not finished and
+// still occupies its concurrency slot.
+func terminalPhase(p execution.JobPhase) bool {
+	switch p {
+	case execution.JobSucceeded, execution.JobFailed, execution.JobKilled, execution.JobAdmissionError, execution.JobFinishedUnknown:
+		return true
+	}
+	return false
+}
+
 func isStarted(j *execution.Job) bool { return !j.Status.StartTime.IsZero() }
-func isActive(j *execution.Job) bool  { return isStarted(j) && !j.Status.Phase.IsTerminal() }
-func isQueued(j *execution.Job) bool  { return !isStarted(j) && !j.Status.Phase.IsTerminal() }
+func isActive(j *execution.Job) bool  { return isStarted(j) && !terminalPhase(j.Status.Phase) }
+func isQueued(j *execution.Job) bool  { return !isStarted(j) && !terminalPhase(j.Status.Phase) }
 func jcUIDOf(j *execution.Job) string { return j.Labels[labelJobConfigUID] }
 func policyOf(j *execution.Job) execution.ConcurrencyPolicy {
 	if j.Spec.StartPolicy == nil {
@@ -257,7 +271,10 @@ func (m *monitor) onJobEntry(e *sim.Entry) {
 	if e.Removed && before != nil {
 		for _, tref := range before.Status.Tasks {
 			if p := m.r.w.API.Get(sim.ResPods, before.Namespace+"/"+tref.Name); p != nil {
-				if ref := metav1.GetControllerOf(p.(*corev1.Pod)); ref != nil && ref.UID == before.UID {
+				// the Job's own task: controlled by it, or created by the job controller for it
+				// (its owner reference may have been stripped since, as orphan propagation does)
+				ref := metav1.GetControllerOf(p.(*corev1.Pod))
+				if (ref != nil && ref.UID == before.UID) || m.createdFor[string(p.(*corev1.Pod).UID)] == string(before.UID) {
 					m.fail("C13", "job-removed-before-tasks", "Job %s left the API (by %s) while its listed task %s still exists", e.Key, e.Actor, tref.Name)
 				}
 			}
@@ -421,7 +438,7 @@ func (m *monitor) onJobEntry(e *sim.Entry) {
 	// --- C10: the write that makes a Job terminal ---
 	if e.Actor == "job" {
 		m.jobCtlWrote[uid] = true
-		if !before.Status.Phase.IsTerminal() && after.Status.Phase.IsTerminal() {
+		if !terminalPhase(before.Status.Phase) && terminalPhase(after.Status.Phase) {
 			m.checkTerminal(e, after)
 		}
 	}
@@ -513,7 +530,7 @@ func (m *monitor) checkCoherent(key string, j *execution.Job) {
 	if j.Status.State != want {
 		m.fail("C11", "state-mismatch", "Job %s state %s, condition implies %s", key, j.Status.State, want)
 	}
-	if j.Status.Phase.IsTerminal() != (c.Finished != nil) {
+	if terminalPhase(j.Status.Phase) != (c.Finished != nil) {
 		m.fail("C11", "phase-terminal-mismatch", "Job %s phase %s, finished condition set: %v", key, j.Status.Phase, c.Finished != nil)
 	}
 	if j.Status.CreatedTasks != int64(len(j.Status.Tasks)) {
@@ -641,6 +658,7 @@ func (m *monitor) onPodEntry(e *sim.Entry) {
 		k := jobUID + "|" + hash
 		prev := m.podCreates[k]
 		m.podCreates[k] = append(prev, podCreate{key: e.Key, uid: string(p.UID), retry: retry, at: now})
+		m.createdFor[string(p.UID)] = jobUID
 		job := m.jobByUID(jobUID)
 		if job == nil {
 			return
@@ -1096,7 +1114,7 @@ func (m *monitor) drive(rounds int, step time.Duration) bool {
 				}
 			}
 			for _, j := range w.API.Jobs() {
-				if !j.Status.Phase.IsTerminal() && (isStarted(j) || j.DeletionTimestamp != nil) {
+				if !terminalPhase(j.Status.Phase) && (isStarted(j) || j.DeletionTimestamp != nil) {
 					quiet = false
 				}
 			}
@@ -1191,6 +1209,12 @@ func (m *monitor) finale() {
 	// TTL: after the longest TTL every finished Job is gone
 	for i := 0; i < 3; i++ {
 		w.Advance(2 * time.Hour)
+		// two hours contain many informer resyncs (10 min by default): progress that
+		// only a resync can trigger (the removal of a Pod whose owner reference was
+		// stripped is not mapped to its Job) has happened by now
+		for _, res := range sim.AllRes {
+			w.Resync(res)
+		}
 		if !m.drive(6, 61*time.Second) || m.first() != nil {
 			return
 		}
@@ -1381,7 +1405,7 @@ func (m *monitor) quiescentChecks() {
 			if j.Name != jobName || j.DeletionTimestamp != nil || !isStarted(j) {
 				continue
 			}
-			if !j.Status.Phase.IsTerminal() {
+			if !terminalPhase(j.Status.Phase) {
 				m.fail("C09", "foreign-pod-job-stuck", "Job %s needs task name %s, which is occupied by a Pod it does not control, and is still %s at quiescence instead of ending in AdmissionError", j.Name, pk, j.Status.Phase)
 			}
 		}
